@@ -213,6 +213,8 @@ HTML_CELLS = [
     ('<a href="/1">1</a><script>var s = "<a href=\'/no\'>";</script><a href="/2">2</a>', ["/1", "/2"]),
     ('<script type="text/javascript">a</script><a href="/between">x</a><SCRIPT>document.write("<a href=/no2>")</SCRIPT><a href="/after">y</a>', ["/between", "/after"]),
     ('<script>1</script><script>2</script><a href="/3">3</a><script></script>', ["/3"]),
+    ('<script>var f = 1 << 4; document.write("<a href=\'/shift\'>")</script><a href="/ok">x</a>', ["/ok"]),
+    ('<script>if (a<b && c<<=2 && d<<<e) w("<a href=/no5>")</script><a href="/ok2">x</a><script><</script>', ["/ok2"]),
     ('<SCRIPT>document.write("<a href=/no3>")</SCRIPT><a href="/only">x</a><Script>"<a href=\'/no4\'>"</Script>', ["/only"]),
     ('<a name="n">no href</a><a data-x="1">no</a><p href="/p">no</p>', []),
     ('<a href="">empty</a><a href="#top">frag</a>', ["", "#top"]),
